@@ -6,7 +6,9 @@ import sys
 import time
 
 VERIF = os.path.dirname(os.path.dirname(os.path.abspath(__file__)))
-REPO = "/repo"
+# The registered commands always check /repo itself. VERIF_REPO exists only so that the monitor self-test can
+# point a scratch copy of /verif at a scratch worktree of /repo (selftest/run_seeded.py --sandbox).
+REPO = os.environ.get("VERIF_REPO", "/repo")
 BUILD = os.path.join(VERIF, ".build")
 HARNESS = os.path.join(VERIF, "harness")
 HARNESS_TARGET = os.path.join(BUILD, "harness-target")
